@@ -1045,9 +1045,14 @@ impl Engine {
                         let frame = frame.0;
                         self.cov.hit("lget", "ok", &format!("o{order}"));
                         self.cov.oracle("C12");
+                        self.cov.oracle("C01");
                         let tree = target.map(|t| t / TREE_FRAMES).unwrap_or(start * 64 / TREE_FRAMES);
                         let sh = self.shadow.as_mut().unwrap();
                         if frame % (1 << order) != 0 || frame / TREE_FRAMES != tree || !sh.block_free(frame, order) {
+                            if frame % (1 << order) != 0 || !sh.block_free(frame, order) {
+                                let m = format!("lower get(start row {start}, order {order}) returned block {frame}: misaligned or overlapping allocated frames");
+                                viol!(self, "C01", m);
+                            }
                             viol!(self, "C12", format!("lower get(start row {start}, order {order}) returned block {frame} which is not an aligned free block of tree {tree}"));
                         } else {
                             sh.apply_get(frame, order);
